@@ -893,10 +893,16 @@ def _ladder(n: int, style: str, shared: bool, leaf: str = "x", top_tag: bool = F
 
     def build(k: int) -> Any:
         if k == 0:
-            return ph(leaf, (2, 2))
+            return ph(leaf, (2, 2), np.int64 if style in ("aidx", "bidx") else F8)
         a = build(k - 1)
         b = a if shared else build(k - 1)
         kind = style if style != "mix" else ("add", "stack", "mm", "where")[k % 4]
+        if kind == "aidx":
+            # the level below is used as an ARRAY-VALUED INDEX and as an operand
+            return ph("t", (4,), np.int64)[a] + b
+        if kind == "bidx":
+            # two index arrays in one (non-contiguous) advanced index
+            return ph("u", (4, 3, 4), np.int64)[a, 0, b]
         if kind == "add":
             return a + b
         if kind == "stack":
@@ -910,7 +916,7 @@ def _ladder(n: int, style: str, shared: bool, leaf: str = "x", top_tag: bool = F
 
 def memo_cases(tier: str) -> list[dict]:
     out = []
-    for style in ("add", "stack", "mm", "mix"):
+    for style in ("add", "stack", "mm", "mix", "aidx", "bidx"):
         for n in ((3, 6, 12, 18) if tier == "thorough" else (3, 10)):
             for other in ("same", "leaf", "top"):
                 out.append({"id": f"memo/{style}/{n}/shared/{other}", "style": style, "n": n,
